@@ -406,8 +406,14 @@ def wl_sketch(ctx, rng, case):
         def build(r, log):
             """the state under test, built from a private random stream: called twice, it gives two sketches with the same history"""
             f = mk()
+            huge = not extra and r.random() < 0.15  # counters around -2^30 / 2^30: two of them together pass a 32-bit limit
             for _ in range(r.randint(0, 16)):
                 k = r.choice(keys)
+                if huge and r.random() < 0.5:
+                    n = 2**30 + r.randint(0, 20)
+                    (f.remove if r.random() < 0.6 else f.add)(k, n)
+                    log("huge", k, n)
+                    continue
                 if cls_name != "HeavyHitters" and r.random() < 0.35:
                     n = r.randint(1, 5)
                     f.remove(k, n)  # any removal the API accepts (also of keys never added): reachable states
@@ -470,7 +476,12 @@ def wl_sketch(ctx, rng, case):
             elif c == "props":
                 (f.width, f.depth, f.confidence, f.error_rate, f.elements_added, f.query_type)
             elif c == "join_as_argument":
-                P.CountMinSketch(width=w, depth=d, **bl.kw_hash(hf)).join(f)
+                recv = P.CountMinSketch(width=w, depth=d, **bl.kw_hash(hf))
+                if rng.random() < 0.5:
+                    # the receiver holds counters around -2^30 / 2^30 for the same keys: sums may pass a limit and be pinned - in the receiver
+                    for kx in rng.sample(keys, min(3, len(keys))):
+                        (recv.remove if rng.random() < 0.6 else recv.add)(kx, 2**30 + rng.randint(0, 20))
+                recv.join(f)
             elif c == "tables":
                 (getattr(f, "heavy_hitters", None), getattr(f, "meets_threshold", None), getattr(f, "number_heavy_hitters", None), getattr(f, "threshold", None))
         for k in keys + ["absent"]:
